@@ -511,7 +511,9 @@ class UnionMetaType(StructureMetaType):
         if cls.size is None:
             start = stream.tell()
             result, sizes = cls._read_fields(stream, context)
-            size = stream.tell() - start
+            # All members overlay each other: the union extends to the end of the member that reaches furthest,
+            # not to wherever the member that happened to be read last left the stream
+            size = max(((field.offset or 0) + sizes[field._name] for field in cls.__fields__), default=0)
             stream.seek(start)
             buf = stream.read(size)
             if len(buf) != size:
